@@ -60,18 +60,20 @@ LEAN = {
     "layout": "Contracts.Layout",
     "writer": "Contracts.Writer",
     "reader": "Contracts.Reader",
+    "pipeline": "Contracts.Pipeline",
+    "roundtrip": "Contracts.RoundTrip",
     "v3000": "Contracts.V3000",
     "v2000": "Contracts.V2000",
 }
 
 PROPS = {
-    "C01": dict(probes=["v3"], functions=CANON + SERIAL, lean=["canonicalize", "finallabels", "layout", "serialize"], diff=["pipeline"], bounded=[("pipeline", "c01")],
+    "C01": dict(probes=["v3"], functions=CANON + SERIAL, lean=["pipeline", "canonicalize", "finallabels", "layout", "serialize"], diff=["pipeline"], bounded=[("pipeline", "c01")],
                 canary="C01"),
     "C02": dict(probes=["v3"], functions=CANON + SERIAL + PARSER, lean=["layout", "parser", "canonicalize"], diff=["pipeline", "parser"], bounded=[("c02", None)]),
     "C03": dict(probes=["v3"], functions=CANON + SERIAL + PARSER, lean=["layout", "parser", "canonicalize", "finallabels"], diff=["pipeline", "parser"], bounded=[("pipeline", "c03")]),
     "C04": dict(probes=["v3"], functions=CANON, lean=["canonicalize"], diff=["pipeline"], bounded=[("pipeline", "c04")]),
-    "C05": dict(functions=SERIAL, lean=["layout", "serialize"], diff=["pipeline"], bounded=[("c05", None)]),
-    "C06": dict(functions=CANON + SERIAL + V3000 + V2000, lean=["reader", "v3000", "v2000"], diff=["pipeline", "io"], bounded=[("c06", None)]),
+    "C05": dict(functions=SERIAL, lean=["pipeline", "layout", "serialize"], diff=["pipeline"], bounded=[("c05", None)]),
+    "C06": dict(functions=CANON + SERIAL + V3000 + V2000, lean=["pipeline", "reader", "v3000", "v2000"], diff=["pipeline", "io"], bounded=[("c06", None)]),
     "C07": dict(functions=V3000, lean=["reader", "v30line", "v3000"], diff=["io"], bounded=[("c07", None)]),
     "C08": dict(functions=V2000 + V3000, lean=["v2000", "reader"], diff=["io"], bounded=[("c08", None)]),
     "C09": dict(probes=["v5"], functions=WRITER + V3000, lean=["writer", "v30line"], diff=["io"], bounded=[("c09", None)]),
@@ -80,6 +82,40 @@ PROPS = {
     "C12": dict(functions=CANON + SERIAL, lean=["canonicalize", "relabel", "finallabels"], diff=["pipeline"], bounded=[("pipeline", "c12")]),
     "C13": dict(probes=[], functions=CANON, lean=["canonicalize", "partition"], diff=["pipeline"], bounded=[("pipeline", "c13")]),
     "C14": dict(functions=CANON + SERIAL + PARSER + V3000 + V2000 + WRITER, lean=[], diff=[], bounded=[("c14", None)]),
-    "C15": dict(functions=CANON + SERIAL + PARSER, lean=["canonicalize", "finallabels", "partition", "parser"], diff=["pipeline"], bounded=[("c15", None)]),
+    "C15": dict(functions=CANON + SERIAL + PARSER, lean=["pipeline", "canonicalize", "finallabels", "partition", "parser"], diff=["pipeline"], bounded=[("c15", None)]),
     "C16": dict(probes=["v6"], functions=[F["permute_molecule"], F["_permute_molecule"], F["_sort_molecule_by_label"]], lean=["relabel"], diff=["pipeline"], bounded=[("c16", None)]),
+}
+
+
+# Property-level theorems (statement taken from the property text) and the level claimed per property.
+# level "proof": every link of the argument is a discharged Lean obligation over code extracted on this run (dependency
+# contracts V3-V6 are hypotheses of the theorems); the bounded part then only serves as refuter and as probe of the model.
+TOP = {
+    "C01": dict(level="proof", theorems=["Contracts.Pipeline.C01_main", "Contracts.Pipeline.C01_tucan", "Contracts.FinalLabels.assign_final_labels_order_independent"],
+                note="hypotheses: WF graphs produced by the readers/parser (invariant code determines the identity attributes), SetLawful (any set order), BlissLawful (assumed bliss contract, probe V3)"),
+    "C02": dict(level="other", theorems=[], note="label-level injectivity is being proved in Contracts/RoundTrip.lean; until registered the collision search is bounded"),
+    "C03": dict(level="other", theorems=["Contracts.Parser.graph_from_tree_ok", "Contracts.Layout.serialize_molecule_eq"], note="composition parse(serialize) bounded until Contracts/RoundTrip.lean is registered; ANTLR recognition is assumption V4"),
+    "C04": dict(level="proof", theorems=["Contracts.Canonicalize.C04_main"], note="under BlissLawful; requires that equal invariant codes imply equal identity attributes (true for reader/parser output)"),
+    "C05": dict(level="proof", theorems=["Contracts.Pipeline.C05_pipeline", "Contracts.Layout.Grammar.tucanSpec_in_grammar", "Contracts.Layout.tuples_layout", "Contracts.Layout.blocks_layout", "Contracts.Layout.formula_layout"],
+                note="grammar = tucan.ebnf transcribed into Lean at character level; preconditions (symbols from the element table, positive mass/rad, no self-loop) are what the readers/parser guarantee after fixes D3, D7, D8"),
+    "C06": dict(level="other", theorems=["Contracts.Pipeline.C06_graph_half", "Contracts.Reader.same_identity_ctab", "Contracts.Reader.graph_from_molfile_text_dress_irrelevant", "Contracts.Reader.splitlines_crlf"],
+                note="graph->string half and V3000 reader half proved; V2000 half is characterised per file but the pairing of two renderings is bounded"),
+    "C07": dict(level="proof", theorems=["Contracts.Reader.graph_from_molfile_text_render_ok", "Contracts.Reader.fileMeaning_plain_graph", "Contracts.V3000._parse_atom_attributes_ok", "Contracts.V30Line.splice_phys"],
+                note="renderer with arbitrary blank runs, cut points, header lines, separators; float() opaque (V5); tokens must not contain Unicode blanks outside the model's isPySpace"),
+    "C08": dict(level="other", theorems=["Contracts.Reader.graph_from_molfile_text_v2000", "Contracts.V2000._parse_attribute_block_ok", "Contracts.V2000.specGet_mass_kept"],
+                note="V2000 reading proved against its own spec; equality with the V3000 reading of the same abstract molecule is bounded"),
+    "C09": dict(level="proof", theorems=["Contracts.Writer.C09", "Contracts.Writer.C09_line_length", "Contracts.Writer.C09_splice", "Contracts.Writer.C09_atom_roundtrip", "Contracts.Writer.C09_bond_roundtrip"],
+                note="coordinates: reading back gives parseFloat(fmt6 x); 'to six decimals' then rests on the float law V5 (probed); TUCAN->molfile->TUCAN corollary is bounded"),
+    "C10": dict(level="other", theorems=["Contracts.Parser.graph_from_tree_ok", "Contracts.Parser.graph_from_tree_error_is_TPE", "Contracts.Parser.int_total"],
+                note="semantic half proved; the recogniser half (ANTLR accepts exactly tucan.g4) cannot be proved here and is bounded (assumption V4)"),
+    "C11": dict(level="other", theorems=["Contracts.Pipeline.C01_tucan", "Contracts.Parser.graph_from_tree_ok"], note="respelling invariance of the denotation bounded until RoundTrip item 5"),
+    "C12": dict(level="proof", theorems=["Contracts.Canonicalize.C12_main", "Contracts.FinalLabels.serialize_molecule_frame_eq", "Contracts.FinalLabels.serialize_molecule_repeat"],
+                note="'argument unchanged' is the frame obligation of canonicalize_molecule (no mutated parameter) — back end: extractor"),
+    "C13": dict(level="proof", theorems=["Contracts.Canonicalize.C13_main", "Contracts.Canonicalize.C13_classes", "Contracts.Canonicalize.C13_automorphism", "Contracts.Partition.refine_equitable"],
+                note="under BlissLawful (only for carrying the classes through the final renaming) and SetLawful"),
+    "C14": dict(level="other", theorems=[], note="frame obligations only; thread schedules and dependency-internal state are not decided by this technique"),
+    "C15": dict(level="proof", theorems=["Contracts.Pipeline.C15_pipeline_total", "Contracts.Partition.refine_ok", "Contracts.FinalLabels.assign_final_labels_total", "Contracts.Parser.graph_from_tree_error_is_TPE"],
+                note="total correctness with explicit fuel; call graph of the extracted functions is acyclic (constant call depth); ANTLR/igraph/networkx internals are assumptions"),
+    "C16": dict(level="proof", theorems=["Contracts.Relabel.permute_molecule_spec", "Contracts.Relabel.permute_molecule_rng_irrelevant"],
+                note="partial correctness: termination of the retry loop is probabilistic and assumed; random.shuffle contract V6"),
 }
